@@ -44,7 +44,7 @@ func cloneScenario(s *sim.Scenario) *sim.Scenario {
 // Rollout / Service / Ingress names in different namespaces, namespaces that are prefixes of each other, and (sameNS)
 // two workloads in one namespace whose names are prefixes of each other.
 func genTenants(rng *rand.Rand) (ss []*sim.Scenario, sameNS bool) {
-	n := 2 + rng.Intn(3)
+	n := 2 + rng.Intn(2)
 	sameNS = rng.Intn(4) == 0
 	nss := []string{"ns", "ns1", "ns10", "default"}
 	rng.Shuffle(len(nss), func(i, j int) { nss[i], nss[j] = nss[j], nss[i] })
@@ -70,8 +70,18 @@ func genTenants(rng *rand.Rand) (ss []*sim.Scenario, sameNS bool) {
 			}
 		}
 		// keep the runs short: the comparison is per tenant and there are several of them
-		if s.Replicas > 6 {
-			s.Replicas = 2 + s.Replicas%5
+		if s.Replicas > 5 {
+			s.Replicas = 2 + s.Replicas%4
+		}
+		if len(s.Steps) > 3 {
+			s.Steps = s.Steps[:3]
+			var ev2 []sim.Injected
+			for _, e := range s.Events {
+				if e.AtStep <= 3 && !strings.HasPrefix(e.Action, "jump:") {
+					ev2 = append(ev2, e)
+				}
+			}
+			s.Events = ev2
 		}
 		ss = append(ss, s)
 	}
@@ -251,7 +261,15 @@ func multiCase(env *core.Env, idx int, concurrent bool) *core.CaseResult {
 					others = append(others, o.String())
 				}
 			}
-			return gen.NF{"tenant": s, "together_with": others, "concurrent": concurrent, "seed": seed, "stop": r.StopReason, "soloStop": so.stop, "userActions": r.UserActions, "info": extra}
+			status := interface{}(nil)
+			if ro := r.Rollout(); ro != nil {
+				status = ro.Status
+			}
+			var lastWrites []string
+			if mons[i] != nil {
+				lastWrites = mons[i].Tail()
+			}
+			return gen.NF{"lastWrites": lastWrites, "tenant": s, "together_with": others, "concurrent": concurrent, "seed": seed, "stop": r.StopReason, "soloStop": so.stop, "userActions": r.UserActions, "info": extra, "rolloutStatus": status, "schedulerTail": mr.Tail, "workload": mr.W.Store.Snapshot().GetKey(s.WorkloadKey())}
 		}
 		var vs []monitor.Violation
 		if mons[i] != nil {
@@ -263,6 +281,13 @@ func multiCase(env *core.Env, idx int, concurrent bool) *core.CaseResult {
 			}
 		}
 		affectedByKnown := false
+		for fp := range so.fps {
+			if known[fp] {
+				// the solo run itself shows a recorded finding of another property (whether it shows depends on the
+				// schedule): its end state is not a reference
+				affectedByKnown = true
+			}
+		}
 		for _, v := range vs {
 			if known[v.Fingerprint] {
 				affectedByKnown = true
@@ -427,7 +452,7 @@ func init() {
 			if env.Thorough() {
 				return 1600
 			}
-			return 96
+			return 64
 		},
 		WorkerBinary: func(env *core.Env) string { return os.Getenv("VERIF_RACE_BIN") },
 		WorkerEnv: func(env *core.Env, tmp string) []string {
